@@ -364,6 +364,15 @@ Lemma sym_dup_refuted :
   load_sym dem_plain (unlines (map sym_line [mkSym 16 4 84 [102]; mkSym 16 8 84 [103]])) = [mkSym 16 4 84 [102]].
 Proof. vm_compute. reflexivity. Qed.
 
+(* a symbol of type '?' (ST_UNKNOWN: a binding the ELF loader does not know) is written, but the
+   reader takes a '?' line for an end marker and drops it *)
+Lemma sym_unknown_type_refuted :
+  match save_sym [mkSym 16 4 63 [117]; mkSym 32 4 84 [118]] [47;120] [] with
+  | Some f => load_sym dem_plain f = [mkSym 32 4 84 [118]]
+  | None => False
+  end.
+Proof. vm_compute. reflexivity. Qed.
+
 (* ------------------------------------------------------------------ map segments *)
 Lemma str_eqb_refl : forall a, str_eqb a a = true.
 Proof. induction a; cbn; auto. rewrite Z.eqb_refl. auto. Qed.
